@@ -138,14 +138,17 @@ def c02(tier, seed):
 
 
 def c10(tier, seed):
-    return _verus_prop("C10", tier, seed, [("layout", r"::(blob|Layout::known_type_for_size|Layout::for_size_internal|Layout::for_size|integer_type|bitfield_unit|Layout::new|align_to)::", None)], {
+    return _verus_prop("C10", tier, seed, [("layout", r"::(blob|Layout::known_type_for_size|Layout::for_size_internal|Layout::for_size|integer_type|bitfield_unit|Layout::new|align_to)::", None),
+                                           ("constrain", r"::CannotDerive::constrain_type::", None)], {
         "trusted_base": LAYOUT_TRUST,
-        "functions_under_contract": ["bindgen/codegen/helpers.rs: blob, integer_type, bitfield_unit", "bindgen/ir/layout.rs: Layout::{known_type_for_size, new, for_size_internal, for_size}"],
+        "functions_under_contract": ["bindgen/codegen/helpers.rs: blob, integer_type, bitfield_unit", "bindgen/ir/layout.rs: Layout::{known_type_for_size, new, for_size_internal, for_size}",
+                                     "bindgen/ir/analysis/derive.rs: CannotDerive::constrain_type (first rule: an item outside the allowlisted set gets exactly what blocklisted_type_implements_trait says, before any other rule)"],
         "assumptions": [
-            "opaque-blob half of C10 only: for every Layout with size % max(align,1) == 0 (what libclang reports for a complete type) the emitted blob type has exactly that size and alignment (blob post#0-#2), on both the ffi_safe and the padding path",
+            "trait half: a blocklisted type derives a trait only as far as the user's callback vouches (constrain_type post#0), whatever else is true of it (opaque, excluded, ...)",
+            "opaque-blob half of C10: for every Layout with size % max(align,1) == 0 (what libclang reports for a complete type) the emitted blob type has exactly that size and alignment (blob post#0-#2), on both the ffi_safe and the padding path",
         ],
         "unverified": [
-            "Item::is_blocklisted, IsOpaque, that opaque items stop tracing, blocklisted_type_implements_trait (IR/regex-bound): the blocklist half of C10 is not decided",
+            "Item::is_blocklisted, IsOpaque, that opaque items stop tracing, the body of blocklisted_type_implements_trait (IR/regex-bound): 'never defined yet still named' is not decided",
         ]})
 
 
@@ -159,7 +162,7 @@ def _from_str_witnesses():
 
 def c12(tier, seed):
     units = [("layout", None, r"^(safety|decreases.*)$"), ("bf_alloc", None, r"^(safety|decreases.*)$"), ("macro_type", None, r"^safety$"),
-             ("edges", None, r"^safety$"), ("derive_gate", None, r"^safety$"), ("derives", None, r"^safety$"), ("fn_abi", None, r"^safety$")]
+             ("edges", None, r"^safety$"), ("derive_gate", None, r"^safety$"), ("derives", None, r"^safety$"), ("fn_abi", None, r"^safety$"), ("constrain", None, r"^safety$")]
     return _verus_prop("C12", tier, seed, units, {
         "trusted_base": LAYOUT_TRUST + ["alloc::fmt::format stubbed in the from_str witness harnesses (message text irrelevant)"],
         "functions_under_contract": LAYOUT_FNS + ["bindgen/ir/comp.rs: bitfields_to_allocation_units (no-clang-offset mode)", "and the functions of units macro_type, edges, derive_gate, derives, fn_abi (see C05, C07-C09, C14)"],
@@ -218,17 +221,18 @@ def c07(tier, seed):
 def c08(tier, seed):
     def extra():
         return units_incrate.run_spec(units_incrate.derive_tables_spec())
-    return _verus_prop("C08", tier, seed, [("derive_gate", None, None), ("derives", None, None)], {
+    return _verus_prop("C08", tier, seed, [("derive_gate", None, None), ("derives", None, None), ("constrain", None, None)], {
         "trusted_base": INCRATE_TRUST + ["env/derive_gate_env.rs: uninterpreted options and analysis lookups; generic impl<T> instantiated at T = ItemId",
                                         "rule-table oracle written from the property statement (kani_incrate/derive_tables.rs)"],
         "functions_under_contract": ["bindgen/ir/context.rs: the eight impl<T> CanDerive{Debug,Default,Copy,Hash,PartialOrd,PartialEq,Eq,Ord} for T bodies",
+                                     "bindgen/ir/analysis/derive.rs: CannotDerive::constrain_type (the whole per-type rule: blocklisted, excluded by name, opaque, simple kinds, pointers/fn pointers, arrays, vectors, compounds, type references, template instantiations) and DeriveTrait::{not_by_name, can_derive_*} (Verus unit constrain; member join = uninterpreted s_join)",
                                      "bindgen/codegen/mod.rs: derives_of_item (packed-requires-Copy, annotation exclusions; DerivableTraits modelled as one bool per flag)",
                                      "bindgen/ir/analysis/derive.rs: DeriveTrait::can_derive_{simple,pointer,vector,union,compound_with_destructor,compound_with_vtable,compound_forward_decl,incomplete_array}; can_derive_fnptr (bounded)",
                                      "bindgen/ir/function.rs: FunctionSig::function_pointers_can_derive (bounded)"],
         "assumptions": ["gating: result == option enabled && analysis lookup (&& no float for Eq/Ord), both directions ('never when', 'never withheld')",
                         "rule tables complete over all 5 traits x every TypeKind constructible without libclang (17 kinds); UnresolvedTypeRef, Comp, Function, TemplateInstantiation, ObjCInterface kinds are not constructible and are skipped"],
         "bounds": "fn-pointer rule: argument counts 0, 12, 13 (around the 12-argument limit) x all ABIs x all traits",
-        "unverified": ["CannotDerive::constrain_type / constrain_join on real IR (per-kind composition: arrays, comps, template instantiations); hand-written impl bodies (impl_debug.rs, impl_partialeq.rs, Default via write_bytes)"],
+        "unverified": ["CannotDerive::constrain_join (closure over Trace: which members are joined), CannotDerive::constrain (large-alignment override, insert), the IR reads themselves; hand-written impl bodies (impl_debug.rs, impl_partialeq.rs, Default via write_bytes)"],
     }, extra_obs=extra)
 
 
